@@ -116,7 +116,7 @@ func Load(repo, tier string, tests bool) *Ctx {
 			broken("package %s not found under %s (found %d packages)", w, repo, len(c.Pkgs))
 		}
 	}
-	prog, spkgs := ssautil.Packages(initial, ssa.BuilderMode(0))
+	prog, spkgs := ssautil.Packages(initial, ssa.InstantiateGenerics)
 	prog.Build()
 	c.Prog = prog
 	for i, p := range initial {
